@@ -39,6 +39,21 @@ async fn resolver_histories(log: &Log, r: &mut Rng, n: u64) {
         anytls_rs::util::dns_cache::verif_clear().await;
         let names = ["localhost".to_string(), random_name(r, 12), random_name(r, 40)];
         let mut allowed: Vec<Vec<Vec<i64>>> = vec![vec![ipcells(IpAddr::V4(Ipv4Addr::LOCALHOST)), ipcells(IpAddr::V6(Ipv6Addr::LOCALHOST))]];
+        // overlapping requests for one host that is not cached yet, each with its own port (same task and other tasks)
+        if r.chance(1, 2) {
+            let ps: Vec<u16> = { let mut v: Vec<u16> = PORTS.to_vec(); let k = r.below(7) as usize; v.rotate_left(k); v.truncate(3); v };
+            let (h0, h1) = (names[0].clone(), names[0].clone());
+            let (p1, p2) = (ps[1], ps[2]);
+            let t1 = tokio::spawn(async move { anytls_rs::util::resolve_host_with_cache(&h0, p1).await });
+            let (a, b) = tokio::join!(anytls_rs::util::resolve_host_with_cache(&names[0], ps[0]), anytls_rs::util::resolve_host_with_cache(&h1, p2));
+            let c = t1.await.unwrap_or_else(|_| Err(anytls_rs::util::AnyTlsError::Protocol("join".into())));
+            for (port, res) in [(ps[0], a), (p2, b), (p1, c)] {
+                match res {
+                    Ok(sa) => ev!(log, "resolve", host: names[0], port: port, ok: true, ip: ipcells(sa.ip()), ansport: sa.port(), allowed: allowed[0]),
+                    Err(_) => ev!(log, "resolve", host: names[0], port: port, ok: false, ip: Vec::<i64>::new(), ansport: 0, allowed: allowed[0]),
+                }
+            }
+        }
         for nm in &names[1..] {
             let ips: Vec<IpAddr> = (0..r.range(1, 3)).map(|_| IpAddr::V4(Ipv4Addr::new(127, r.range(0, 3) as u8, r.range(0, 255) as u8, r.range(1, 254) as u8))).collect();
             // a lookup for some port filled the cache (as the resolver itself would do)
@@ -65,7 +80,13 @@ async fn random_dest(r: &mut Rng) -> DestCase {
     match r.below(4) {
         0 => { let ip = Ipv4Addr::new(127, r.range(0, 255) as u8, r.range(0, 255) as u8, r.range(1, 254) as u8);
                DestCase { atyp: 1, addr: ip.octets().to_vec(), port, allowed: vec![], host: ip.to_string() } }
-        1 => { let ip = if r.chance(1, 2) { Ipv6Addr::LOCALHOST } else { Ipv6Addr::new(0xfd00, r.next() as u16, 0, 0, 0, 0, r.next() as u16, 1) };
+        1 => { let ip = match r.below(6) {
+                   0 | 1 => Ipv6Addr::LOCALHOST,
+                   // special forms: IPv4-mapped, IPv4-compatible, unspecified, documentation prefix
+                   2 => Ipv4Addr::new(127, r.range(0, 255) as u8, r.range(0, 255) as u8, r.range(1, 254) as u8).to_ipv6_mapped(),
+                   3 => Ipv6Addr::new(0, 0, 0, 0, 0, 0, 0x7f00, r.range(1, 0xfffe) as u16),
+                   4 => if r.chance(1, 2) { Ipv6Addr::UNSPECIFIED } else { Ipv6Addr::new(0x2001, 0xdb8, 0, 0, 0, 0, 0, r.next() as u16) },
+                   _ => Ipv6Addr::new(0xfd00, r.next() as u16, 0, 0, 0, 0, r.next() as u16, 1) };
                DestCase { atyp: 4, addr: ip.octets().to_vec(), port, allowed: vec![], host: ip.to_string() } }
         _ => {
             let len = *r.pick(&[1usize, 2, 9, 63, 64, 127, 128, 254, 255]);
@@ -144,7 +165,7 @@ async fn end_to_end(log: &Log, sched: &Sched, r: &mut Rng, n: u64) {
         let panics0 = PANICS.load(Ordering::SeqCst);
         for _ in 0..r.range(2, 6) {
             let c = random_dest(r).await;
-            let via = *r.pick(&["client", "socks5", "http", "udp"]);
+            let via = *r.pick(&["client", "socks5", "http", "httpget", "udp"]);
             let before = sched.internal_events();
             match via {
                 "client" => {
@@ -170,6 +191,20 @@ async fn end_to_end(log: &Log, sched: &Sched, r: &mut Rng, n: u64) {
                     if let Ok(mut s) = tokio::net::TcpStream::connect(&http).await {
                         let auth = if c.atyp == 4 { format!("[{}]:{}", c.host, c.port) } else { format!("{}:{}", c.host, c.port) };
                         let req = format!("CONNECT {} HTTP/1.1\r\nHost: {}\r\n\r\n", auth, auth);
+                        let _ = s.write_all(req.as_bytes()).await;
+                        wait_events(sched, before + 1).await;
+                    }
+                }
+                "httpget" => {
+                    // absolute-form request of another method: the authority of the URI decides, whatever the path and query contain
+                    if c.atyp == 3 && (c.host.len() > 200 || c.host.ends_with('.') || c.host.ends_with('-')) { continue; }
+                    if c.port == 0 { continue; }
+                    ev!(log, "dreq", r: 0, via: via, atyp: c.atyp, addr: cells(&c.addr), port: c.port, allowed: c.allowed, wire: Vec::<i64>::new());
+                    if let Ok(mut s) = tokio::net::TcpStream::connect(&http).await {
+                        let auth = if c.atyp == 4 { format!("[{}]:{}", c.host, c.port) } else { format!("{}:{}", c.host, c.port) };
+                        let path = *r.pick(&["/", "/users/bob@example.invalid/profile", "/login?next=x@127.0.0.1:9/", "/a:8080/b", "/q?u=http://other.invalid:81/z", "/x#y@z", "//@/", "/p?@"]);
+                        let hostline = if r.chance(1, 2) { format!("Host: {}\r\n", auth) } else { String::new() };
+                        let req = format!("{} http://{}{} HTTP/1.1\r\n{}Accept: */*\r\n\r\n", *r.pick(&["GET", "POST", "HEAD"]), auth, path, hostline);
                         let _ = s.write_all(req.as_bytes()).await;
                         wait_events(sched, before + 1).await;
                     }
